@@ -9,10 +9,10 @@ PYTHONPATH=/repo /venv/bin/python -c "import gen_units; t, e = gen_units.transla
 cp /verif/coq/Gen/Eq*.v "$D"/
 cd "$D"
 W=-notation-overridden,-inexact-float,-deprecated-hint-without-locality,-deprecated-instance-without-locality
-for f in GSrc GFn EqStats EqCusum EqConfig EqSPC EqHDDM EqHDDMW EqRDDM EqExec EqSTEPD EqSrcStats EqKSWIN EqBOCD EqBucket EqPerm EqDist EqData EqIKS EqAQ; do
+for f in GSrc GFn EqStats EqCusum EqConfig EqSPC EqHDDM EqHDDMW EqRDDM EqExec EqSTEPD EqSrcStats EqKSWIN EqBOCD EqBucket EqPerm EqDist EqData EqIKS EqAQ EqKuiper; do
   timeout 900 coqc -Q /verif/coq FV -Q . FVG -w $W $f.v > /dev/null
 done
-timeout 3000 coqchk -silent -o -Q /verif/coq FV -Q . FVG EqStats.vo EqCusum.vo EqConfig.vo EqSPC.vo EqHDDM.vo EqHDDMW.vo EqRDDM.vo EqExec.vo EqSTEPD.vo EqSrcStats.vo EqKSWIN.vo EqBOCD.vo EqBucket.vo EqPerm.vo EqDist.vo EqData.vo EqIKS.vo EqAQ.vo > coqchk.log 2>&1
+timeout 3000 coqchk -silent -o -Q /verif/coq FV -Q . FVG EqStats.vo EqCusum.vo EqConfig.vo EqSPC.vo EqHDDM.vo EqHDDMW.vo EqRDDM.vo EqExec.vo EqSTEPD.vo EqSrcStats.vo EqKSWIN.vo EqBOCD.vo EqBucket.vo EqPerm.vo EqDist.vo EqData.vo EqIKS.vo EqAQ.vo EqKuiper.vo > coqchk.log 2>&1
 rc=$?
 awk '/\* Axioms:/,/\* Inductives whose positivity is assumed/' coqchk.log | grep -v "PrimInt63\|PrimFloat\|Uint63"
 echo "coqchk (source tie) exit status: $rc (full log: $D/coqchk.log)"
